@@ -544,6 +544,7 @@ def gen_C10(rng, tier):
     # pointers that are not 8-aligned (C10_misaligned): address classes 1..7 (0 for contrast) x lengths 0..48 x valid /
     # invalid magic and checksum with the declared region valid, and lengths up to 2^32-1 with only the 16 header bytes valid
     dist["misaligned_ptr"] = 0
+    st = rng.getstate()         # region() draws the wrong magics: the later sampled families keep their draws
     for a in range(0, 8):
         for length in range(0, 49):
             for magic_ok, ck in ((True, "ok"), (False, "ok"), (True, "plus1")):
@@ -553,6 +554,7 @@ def gen_C10(rng, tier):
             for length in (16, 17, 24, 4096, 0x10000, 0x7FFFFFF8, 0x80000000, 0xFFFFFFF8, 0xFFFFFFFF):
                 cases.append("hdrmis %d %s" % (a, hx(E.u32(E.HDR_MAGIC) + E.u32(0) + E.u32(length) + E.u32(E.checksum(E.HDR_MAGIC, 0, length)))))
                 dist["misaligned_ptr"] += 1
+    rng.setstate(st)
     # realistic headers (0..10 tags of the 11 kinds) and one mutation of each: the accepting side of the "iff"
     dist["realistic"] = {}
     for _ in range(10000 if tier == "thorough" else 250):
